@@ -14,6 +14,7 @@ import re
 import shutil
 import subprocess
 import sys
+import threading
 import time
 
 VERIF = os.path.dirname(os.path.dirname(os.path.abspath(__file__)))
@@ -394,6 +395,7 @@ class Ctx:
         self.exhaustive = False
         self.rule = ""
         self.extra = {}
+        self._lock = threading.RLock()     # lanes of one check run in threads and share this context: see count()
         self.tmp = os.path.join(BUILD, "tmp", "%s-%d" % (pid, os.getpid()))
         shutil.rmtree(self.tmp, ignore_errors=True)
         os.makedirs(self.tmp, exist_ok=True)
@@ -406,6 +408,14 @@ class Ctx:
 
     def pick(self, q, t):
         return q if self.quick else t
+
+    def count(self, **kw):
+        """Adds to the counters of the evidence (states, transitions, traces, evaluations, distinct, _rec_exec) in one step.
+        `ctx.traces += f()` reads the counter *before* f runs: whatever another lane added meanwhile would be lost, and the
+        evidence would describe less work than was done.  Code that may run beside another lane uses this instead."""
+        with self._lock:
+            for k, v in kw.items():
+                setattr(self, k, getattr(self, k, 0) + v)
 
     # -- model runs ---------------------------------------------------------------------------
     def model(self, spec, cfg, what=None, must_cover=True, ignore_cov=(), count=True, **kw):
@@ -422,8 +432,7 @@ class Ctx:
             if z:
                 raise HarnessError("%s: vacuous run, actions never taken: %s" % (what, z))
         if count:
-            self.states += r.distinct
-            self.transitions += r.generated
+            self.count(states=r.distinct, transitions=r.generated)
         self.engines.append("%s: %d distinct states, %d transitions, depth %d, %.1fs" % (what, r.distinct, r.generated, r.depth, r.wall))
         log(self.engines[-1])
         return r
@@ -525,9 +534,7 @@ class Ctx:
             self.known_hit(hz, n)
         for f in merged["failures"]:
             self.violation("%s: %s" % (label, f.get("msg", "")), path=f.get("replay"))
-        self.traces += merged["executed"]
-        self.evaluations += merged["executed"]
-        self.distinct += merged["nontrivial"]
+        self.count(traces=merged["executed"], evaluations=merged["executed"], distinct=merged["nontrivial"])
         self.add_samples(merged["samples"])
         self.engines.append("%s: %d cases, %d executed on the implementation, %d skipped (open findings), %d failures" %
                             (label, merged["cases"], merged["executed"], sum(merged["skipped"].values()), len(merged["failures"])))
@@ -578,8 +585,7 @@ class Ctx:
                     nev += 1
                     if ln.startswith(b'{"k":0,') or ln.startswith(b'{"objs"') or ln.startswith(b'{"sum"') or ln.startswith(b'{"op":"reset"') or ln.startswith(b'{"e":"Reset"') or ln.startswith(b'{"e":"reset"'):
                         nex += 1
-        self.evaluations += nev
-        self._rec_exec = getattr(self, "_rec_exec", 0) + nex
+        self.count(evaluations=nev, _rec_exec=nex)
         self.engines.append("%s: %d recorded runs, %d executions, %d events" % (label, len(files), nex, nev))
         log(self.engines[-1])
         return files
@@ -599,8 +605,7 @@ class Ctx:
         with cf.ThreadPoolExecutor(parallel) as ex:
             for f, r in ex.map(one, files):
                 if r.rc == 0:
-                    self.states += r.distinct
-                    self.transitions += r.generated
+                    self.count(states=r.distinct, transitions=r.generated)
                     continue
                 bad.append((f, r))
         accepted = len(files) - len(bad)
@@ -618,11 +623,12 @@ class Ctx:
             shutil.copyfile(f, keep)
             self.violation("%s: recorded implementation trace rejected by %s near event %s (%s)\n%s" %
                            (label, trace_spec, line, v, _nth_line(f, line)), path=keep)
-        if accepted == len(files):
-            self.traces += getattr(self, "_rec_exec", 0)
-            self._rec_exec = 0
-        else:
-            self.traces += accepted
+        with self._lock:
+            if accepted == len(files):
+                self.traces += getattr(self, "_rec_exec", 0)
+                self._rec_exec = 0
+            else:
+                self.traces += accepted
         self.engines.append("%s: %d/%d recorded files accepted by %s" % (label, accepted, len(files), trace_spec))
         log(self.engines[-1])
         return accepted
